@@ -19,6 +19,7 @@ func genLease(c *Ctx) error {
 	}
 	directedQueuedImport(c)
 	directedStalledHandoff(c)
+	directedRefusedHandoffAcquisition(c)
 	if c.Flag("queued-import") {
 		return nil
 	}
@@ -464,4 +465,33 @@ func directedStalledHandoff(c *Ctx) {
 		c.Count("directed.stalled-handoff")
 		c.Nontrivial("directed-stalled-handoff" + mode)
 	}
+}
+
+// directedRefusedHandoffAcquisition (Consul leaser): a node is handed a session that is alive but
+// no longer holds the key — another session took the key over between the old primary's last
+// renewal and the target's acquisition.  The acquisition must be refused (a primary exists) and
+// the roles stay what they are.
+func directedRefusedHandoffAcquisition(c *Ctx) {
+	cs := c.Begin()
+	do := func(op string) string { c.Count("op." + strings.Fields(op)[0]); return cs.Do(op) }
+	obs := func(what string) {
+		if out := do("quiet"); out != "ok" {
+			c.Fail("refused hand-over acquisition (" + what + "): a node acts as primary without holding the lease (or the reverse): " + out)
+		}
+		do("roles")
+		do("events")
+	}
+	do("cluster 2 consul")
+	do("lease-ttl long")
+	do("allow 0")
+	do("up 0")
+	do("up 1")
+	obs("node 0 primary")
+	if out := do("consul-acqex 1"); out != "primary-exists" {
+		c.Fail("refused hand-over acquisition: node 1 was handed a session that does not hold the key and its acquisition answered " + out)
+	}
+	obs("after the refused acquisition")
+	cs.End()
+	c.Count("directed.refused-handoff-acquisition")
+	c.Nontrivial("directed-refused-handoff-acquisition")
 }
